@@ -128,6 +128,7 @@ func c11Features(c c11Cfg) int {
 type c11Result struct {
 	Idx      int      `json:"idx"`
 	Cfg      c11Cfg   `json:"cfg"`
+	Hung     bool     `json:"hung,omitempty"` // the run never returned: the child stops after this configuration
 	Status   string   `json:"status"` // rejected | ok | violation | inconclusive
 	Detail   string   `json:"detail,omitempty"`
 	Outcomes []string `json:"outcomes,omitempty"` // per run: success | failure
@@ -247,6 +248,9 @@ func c11JobJSON(c c11Cfg, id string, k int, p string, sv *c11Servers) string {
 }
 
 const c11Watchdog = 8 * time.Second
+
+// c11HangAfter: a synchronously started run that has not returned by then hangs.
+const c11HangAfter = 15 * time.Second
 
 // c11RunConfig runs one configuration on the child's hub.
 func c11RunConfig(h *vjHub, sv *c11Servers, idx int, c c11Cfg) c11Result {
@@ -383,10 +387,21 @@ func c11RunConfig(h *vjHub, sv *c11Servers, idx int, c c11Cfg) c11Result {
 			}
 			entry := jobrunner.MainCron.Entry(ids[0])
 			var pan any
-			func() {
+			ended := make(chan struct{})
+			go func() {
+				defer close(ended)
 				defer func() { pan = recover() }()
 				entry.Job.Run()
 			}()
+			select {
+			case <-ended:
+			case <-time.After(c11HangAfter):
+				// the harness owns this schedule: the run is the only activity of the hub, its source,
+				// transform and sink are local and answer at once, a run takes milliseconds
+				res.Status, res.Detail = "violation", fmt.Sprintf("%s: the run did not end within %v (it was started alone; its source, transform and sink are local and answer at once): the job hangs, no outcome is recorded and its run slot stays taken", tag, c11HangAfter)
+				res.Hung = true
+				return res
+			}
 			if pan != nil {
 				s := fmt.Sprint(pan)
 				if len(s) > 600 {
@@ -461,6 +476,16 @@ func TestVerifChild_C11(t *testing.T) {
 		line, _ := json.Marshal(r)
 		_, _ = out.Write(append(line, '\n'))
 		_ = out.Sync()
+		if r.Hung {
+			// a goroutine of this hub is stuck for good: report the rest of the group as not run and leave
+			for k := i + 1; k < len(g.Cfgs); k++ {
+				line, _ := json.Marshal(c11Result{Idx: g.Idx[k], Cfg: g.Cfgs[k], Status: "inconclusive", Detail: "not run: an earlier configuration of the group hangs"})
+				_, _ = out.Write(append(line, '\n'))
+			}
+			_ = out.Sync()
+			_ = os.Remove(outPath + ".cur")
+			os.Exit(0)
+		}
 	}
 	_ = os.Remove(outPath + ".cur")
 }
